@@ -96,12 +96,12 @@ theorem splitWsLoop_eq (s : Bytes) (i : Nat) (hi : i ≤ s.length) : splitWsLoop
       rw [tokensAbs_space _ _ hsp2]
     · have : j = s.length := by omega
       rw [List.drop_eq_nil_of_le (by omega), tokensAbs_nil]
-      unfold splitWsLoop
+      unfold AslModel.Str.splitWsLoop
       rw [dif_neg (by omega)]
   | case4 i h => omega
 
 theorem splitWs_eq (s : Bytes) : splitWs s = tokensAbs s := by
-  unfold splitWs; rw [splitWsLoop_eq s 0 (by omega)]; rfl
+  unfold AslModel.Str.splitWs; rw [splitWsLoop_eq s 0 (by omega)]; rfl
 
 
 /-! ## strchr / strrchr / strncmp -/
@@ -237,5 +237,103 @@ theorem endsWith_iff (s p : Bytes) :
   · rintro ⟨u, rfl⟩
     refine ⟨by simp, ?_⟩
     simp
+
+
+theorem strrchr_none {c : UInt8} : ∀ {s : Bytes}, strrchr c s = none → c ∉ s
+  | [], _ => by simp
+  | y :: u, hu => by
+    simp only [strrchr] at hu
+    cases hk2 : strrchr c u with
+    | some _ => simp [hk2] at hu
+    | none =>
+      simp only [hk2] at hu
+      split at hu
+      · cases hu
+      · rename_i hy
+        have hyc : ¬ y = c := by simpa using hy
+        simp only [List.mem_cons, not_or]
+        exact ⟨fun e => hyc e.symm, strrchr_none hk2⟩
+
+theorem getD_drop (s : Bytes) (i k : Nat) : (s.drop i).getD k 0 = s.getD (i + k) 0 := by
+  simp [List.getD_eq_getElem?_getD, List.getElem?_drop]
+
+/-- `indexOf(char c, int i0)`: the first position at or after `i0` holding `c` -/
+theorem indexOfChar_some {s : Bytes} {c : UInt8} {i0 k : Nat} (hc : c ≠ 0) (h : indexOfChar s c i0 = some k) :
+    i0 ≤ k ∧ k < s.length ∧ s.getD k 0 = c ∧ ∀ k', i0 ≤ k' → k' < k → s.getD k' 0 ≠ c := by
+  unfold indexOfChar at h
+  cases hk : strchr c (s.drop i0) with
+  | none => simp [hk] at h
+  | some j =>
+    simp only [hk, Option.map_some, Option.some.injEq] at h
+    subst h
+    obtain ⟨h1, h2, h3⟩ := strchr_some hc hk
+    simp only [List.length_drop] at h1
+    rw [getD_drop] at h2
+    refine ⟨by omega, by omega, h2, ?_⟩
+    intro k' hk1 hk2
+    have := h3 (k' - i0) (by omega)
+    rw [getD_drop] at this
+    have e : i0 + (k' - i0) = k' := by omega
+    rwa [e] at this
+
+theorem indexOfChar_none {s : Bytes} {c : UInt8} {i0 : Nat} (h : indexOfChar s c i0 = none) :
+    ∀ k', i0 ≤ k' → k' < s.length → s.getD k' 0 ≠ c := by
+  unfold indexOfChar at h
+  cases hk : strchr c (s.drop i0) with
+  | some j => simp [hk] at h
+  | none =>
+    intro k' h1 h2 heq
+    have hmem := strchr_none hk
+    apply hmem
+    have hl : k' - i0 < (s.drop i0).length := by simp only [List.length_drop]; omega
+    have : (s.drop i0).getD (k' - i0) 0 = c := by
+      rw [getD_drop]
+      have e : i0 + (k' - i0) = k' := by omega
+      rw [e]; exact heq
+    rw [List.getD_eq_getElem?_getD, List.getElem?_eq_getElem hl] at this
+    simp only [Option.getD_some] at this
+    rw [← this]; exact List.getElem_mem hl
+
+/-! ## `split()` by blanks on the representation -/
+
+theorem tokEnd_le (s : Bytes) (j : Nat) (hj : j ≤ s.length) : j ≤ tokEnd s j ∧ tokEnd s j ≤ s.length := by
+  unfold tokEnd
+  have := (List.takeWhile_prefix (l := s.drop j) (fun c => !isSpace c)).length_le
+  simp only [List.length_drop] at this
+  omega
+
+theorem splitWsLoop_rep {r : Rep} {s : Bytes} (hm : Models r s) (i : Nat) :
+    ∃ l, Rep.splitWsLoop r i = some l ∧ AllModels l (AslModel.Str.splitWsLoop s i) := by
+  fun_induction AslModel.Str.splitWsLoop s i with
+  | case1 h =>
+    refine ⟨[], ?_, AllModels.nil⟩
+    rw [Rep.splitWsLoop]
+    simp [hm.toList]
+  | case2 i h hne hsp ih =>
+    obtain ⟨l, hl, hf⟩ := ih
+    refine ⟨l, ?_, hf⟩
+    rw [Rep.splitWsLoop]
+    simp only [hm.toList, h, dite_true, hne, if_false, hsp, if_true]
+    exact hl
+  | case3 i h hne hsp j ih =>
+    obtain ⟨l, hl, hf⟩ := ih
+    have hj := tokEnd_le s (i + 1) (by omega)
+    obtain ⟨p, hp, hpm⟩ := substring_spec hm i j (by omega) hj.2
+    refine ⟨p :: l, ?_, AllModels.cons hpm hf⟩
+    rw [Rep.splitWsLoop]
+    simp only [hm.toList, h, dite_true, hne, if_false, hsp]
+    rw [hp]; simp only [Option.bind_some]
+    rw [hl]; rfl
+  | case4 i h =>
+    refine ⟨[], ?_, AllModels.nil⟩
+    rw [Rep.splitWsLoop]
+    simp [hm.toList, h]
+
+/-- `split()`: in bounds, every token a well-formed String, and the tokens are the maximal runs of non-blank bytes -/
+theorem splitWs_rep {r : Rep} {s : Bytes} (hm : Models r s) :
+    ∃ l, r.splitWs = some l ∧ AllModels l (tokensAbs s) := by
+  obtain ⟨l, hl, hf⟩ := splitWsLoop_rep hm 0
+  rw [show AslModel.Str.splitWsLoop s 0 = splitWs s from rfl, splitWs_eq] at hf
+  exact ⟨l, hl, hf⟩
 
 end AslProofs.Str
